@@ -65,9 +65,10 @@ func (p *Address) WriteTo(w io.Writer) (n int64, err error) {
 		return
 	}
 	data, _ := p.MarshalBinary()
-	data[0] *= 2
 	if p.TON != 0b101 {
-		data[0] -= 1
+		data[0] = byte(len(p.No)) // address length counts the digits (useful semi-octets)
+	} else {
+		data[0] *= 2
 	}
 	_, err = w.Write(data)
 	return
